@@ -70,7 +70,7 @@ func k11GenOps(t *rapid.T, g *k11GenState, nkeys, nops int, cluster bool) []k11O
 			op.T = rapid.SampledFrom([]int{0, 1, 2, 3, 6, 6, 12}).Draw(t, "T")
 			op.E = rapid.IntRange(3, 30).Draw(t, "E")
 			op.Cnt = rapid.SampledFrom([]int{0, 0, 0, 1, 2}).Draw(t, "cnt")
-			op.EF = rapid.SampledFrom([]int{0, 0, 0x0100}).Draw(t, "ef")
+			op.EF = rapid.SampledFrom([]int{0, 0, 0, 0, 0x0100, 0x0100, 0x0200}).Draw(t, "ef")
 			if rapid.IntRange(0, 99).Draw(t, "hasV") < 55 {
 				op.V = k11GenVal(t)
 			}
@@ -81,7 +81,7 @@ func k11GenOps(t *rapid.T, g *k11GenState, nkeys, nops int, cluster bool) []k11O
 			op.T = rapid.SampledFrom([]int{0, 2, 5, 9, 15}).Draw(t, "T")
 			op.E = rapid.IntRange(2, 30).Draw(t, "E")
 			op.Cnt = rapid.SampledFrom([]int{0, 0, 1, 2}).Draw(t, "cnt")
-			op.EF = rapid.SampledFrom([]int{0, 0, 0x0100}).Draw(t, "ef")
+			op.EF = rapid.SampledFrom([]int{0, 0, 0, 0x0100, 0x0100, 0x0200}).Draw(t, "ef")
 			if rapid.IntRange(0, 99).Draw(t, "hasV") < 35 {
 				op.V = k11GenVal(t)
 			}
@@ -241,6 +241,17 @@ func k11Exclusions(c *k11Case, st *vStat) {
 					st.Exclude("append-file buffer of one or two records not combined with a write fault (known finding " + k11KeyTwice + ")")
 				}
 				break
+			}
+		}
+	}
+	if vIsKnown(k11KeyNeverAof) {
+		for i := range c.Ops {
+			// the first holder's persistence delay is inherited by every later holder of the key
+			if o := &c.Ops[i]; o.K == "lock" && o.EF&0x0200 != 0 {
+				o.EF &^= 0x0200
+				if st != nil {
+					st.Exclude("never-persist expiry flag removed (known finding " + k11KeyNeverAof + ")")
+				}
 			}
 		}
 	}
